@@ -16,7 +16,7 @@
 (* Fixed = FALSE models the pinned tree: in the wait loop                  *)
 (*   current, _ = os.getUnlocked(id of current) ; current.NextID           *)
 (* dereferences nil when `current` was deleted (label Crash, finding F10). *)
-(* A second defect of the pinned tree found with this model: a reader       *)
+(* A second defect of the pinned tree found with this model: a reader      *)
 (* waiting behind the sentinel 0 (or any batch that outlives its           *)
 (* successor) whose NextID target is compacted away before the reader      *)
 (* looks waits for ever although newer batches exist (F10b).               *)
